@@ -47,7 +47,7 @@ def run_sheets(ctx, seed_salt, features, n_quick, n_thorough, depth=3, all_opts=
     for c in cases:
         k = 'stmts<=%d' % (5 * ((S.size(c['sheet']) + 4) // 5))
         sizes[k] = sizes.get(k, 0) + 1
-    out['distribution'] = {'sizes': sizes, 'impl_errors': sum(1 for a in answers if a.get('r') != 'ok'), 'features': sorted(features)}
+    out['distribution'] = {'text_pipeline': out.pop('text_pipeline', None), 'sizes': sizes, 'impl_errors': sum(1 for a in answers if a.get('r') != 'ok'), 'features': sorted(features)}
     return out
 
 
